@@ -5,7 +5,7 @@ BS = [('0', '0'), ('SKIP', 'F_SKIP'), ('DIR', 'F_DIR'), ('SYNC', 'F_SYNC'), ('SY
       ('SYNC+SKIP', 'F_SYNC|F_SKIP'), ('SYNC+DIR', 'F_SYNC|F_DIR')]
 CB = [('0', '0'), ('SKIP', 'F_SKIP'), ('DIR', 'F_DIR'), ('OBO', 'F_OBO'), ('OBO+SKIP', 'F_OBO|F_SKIP'), ('OBO+DIR', 'F_OBO|F_DIR')]
 CALLER = {0: 'ext', 1: 'w0', 2: 'wlast'}
-NOTRUN = {0: 'allrun', 1: 't0-notstarted', 2: 'tlast-detached'}
+NOTRUN = {0: 'allrun', 1: 't0-notstarted', 2: 'tlast-detached', 3: 't0-was-the-caller'}
 
 
 def variants():
@@ -22,7 +22,9 @@ def variants():
                     continue            # documented: a pool thread cannot wait synchronously for itself
                 if W == 16 and fl[0] not in ('0', 'SYNC', 'SKIP', 'OBO', 'SYNC+DIR'):
                     continue
-                for notrun in (0, 1, 2):
+                for notrun in (0, 1, 2, 3):
+                    if notrun == 3 and (caller != 0 or W == 1 or W > 3):
+                        continue        # the outside caller ran pool thread 0 itself (attach_first) and left it again
                     if notrun == 1 and (caller == 1 or W == 1):
                         continue        # caller must be running / keep one running thread
                     if notrun == 2 and (caller == 2 or W == 1):
